@@ -167,15 +167,23 @@ def evaluate(job):
             rc, out = run([str(VERIF / "check"), c, "--tier", "quick"], env=env, cwd=str(VERIF))
             rec["checks"][c] = {"rc": rc, "s": round(time.time() - t0, 1)}
             if rc == 1 and "VIOLATION property=" in out:
-                rec["result"] = "killed"
-                rec["killed_by"] = c
                 v = [l for l in out.splitlines() if l.startswith("VIOLATION")]
-                rec["violation"] = v[0][:200] if v else ""
-                rec["no_input"] = bool(v and v[0].rstrip().endswith("no-failing-input-found"))
-                return rec
+                no_input = bool(v and v[0].rstrip().endswith("no-failing-input-found"))
+                if "killed_by" not in rec:
+                    rec["result"] = "killed"
+                    rec["killed_by"] = c
+                    rec["violation"] = v[0][:200] if v else ""
+                    rec["no_input"] = no_input
+                if not no_input:
+                    # some check names a concrete failing input: done.  (A check that only sees the correspondence break
+                    # - the mutant violates another property than its own - does not end the search for one.)
+                    rec["concrete_by"] = c
+                    rec["no_input"] = False
+                    return rec
             if rc not in (0, 1):
                 rec.setdefault("infra", []).append({c: out[-400:]})
-        rec["result"] = "survived"
+        if "killed_by" not in rec:
+            rec["result"] = "survived"
         return rec
     finally:
         f.write_text(orig_src)
@@ -189,6 +197,8 @@ def main():
     ap.add_argument("--jobs", type=int, default=5)
     ap.add_argument("--files", default=",".join(CHECKS))
     ap.add_argument("--out", default="mutation/run1")
+    ap.add_argument("--redo", default=None, help="earlier run directory: redo its no-input kills")
+    ap.add_argument("--redo-survivors", action="store_true")
     a = ap.parse_args()
     rng = random.Random(a.seed)
     outdir = VERIF / a.out
@@ -201,6 +211,12 @@ def main():
         allsites += [(rel, s, src) for s in ss]
     print(f"{len(allsites)} mutation sites in {len(files)} files; sampling {a.n}", flush=True)
     sample = rng.sample(allsites, min(a.n, len(allsites)))
+    if a.redo:
+        # re-evaluate the mutants of an earlier run that were reported without a failing input (or survived)
+        old = [json.loads(l) for l in open(VERIF / a.redo / "results.jsonl")]
+        want = {(r["file"], r["line"], r["kind"], r["rep"]) for r in old if r.get("no_input") or (a.redo_survivors and r["result"] == "survived")}
+        sample = [x for x in allsites if (x[0], x[1][1], x[1][0], x[1][3]) in want]
+        print(f"redo: {len(sample)} mutants of {a.redo}", flush=True)
     # one scratch copy per worker; a worker handles one mutant at a time
     scratches = []
     for j in range(a.jobs):
